@@ -25,9 +25,9 @@ TIERS = {
 }
 
 
-def run(pid, tier):
-    ev = Evidence(pid, tier, "model_checking")
-    vd = Verdict(pid, ev)
+def run(pid, tier, ev=None, vd=None, finish=True):
+    ev = ev or Evidence(pid, tier, "model_checking")
+    vd = vd or Verdict(pid, ev)
     T = TIERS[tier]
     copia = vlib.build_repo()
     bins = vlib.build_harness(["vh_lib"])
@@ -74,6 +74,10 @@ def run(pid, tier):
                     n = len(zlib.decompress(blobs[s[3]]))
                     for cut in list(range(0, n, 64 if tier == "thorough" else 256)) + [n - 1]:
                         jobs.append((s, blobs[s[3]], "trunc", cut))
+                elif kind == "stale_bak":
+                    others = [b for e2, b in blobs.items() if e2 != s[3]]
+                    for b in rng.sample(others, min(3, len(others))):
+                        jobs.append((s, blobs[s[3]], kind, b))
                 elif kind in ("garbage", "wrong_shape"):
                     for prm in (0, 1):
                         jobs.append((s, blobs[s[3]], kind, prm))
@@ -141,7 +145,7 @@ def run(pid, tier):
                            "HOME, HOSTNAME pinned; contents chosen so that id order = BLAKE3 order, content 1's hash has a leading 0 nibble"]
     finally:
         shutil.rmtree(work, ignore_errors=True)
-    return vd.finish()
+    return vd.finish() if finish else 0
 
 
 def describe(uni, e, q):
